@@ -191,18 +191,29 @@ def run(ctx):
                     reads.add(x["name"])
             # which argument is the scratch (the value whose type has the slots)
             known_none = set()
-            for p_ in ix.path_conditions(call):
-                if "expr" not in p_:
-                    continue
-                e, pos = hq.peel(p_["expr"]), p_.get("pos", True)
+            def facts_(e, pos, depth=0):
+                # what a (possibly negated, named, conjoined) condition says about the slots
+                e = hq.peel(e)
                 while e.get("k") == "Unary" and e["op"] == "!":
                     e, pos = hq.peel(e["e"]), not pos
+                if e.get("k") == "Local" and depth < 4:
+                    d = ix.canon.defs.get(e["lid"])
+                    if d and d[0] == "let" and not d[2] and not d[3]:
+                        facts_(d[1], pos, depth + 1)
+                    return
+                if e.get("k") == "Binary" and ((e["op"] == "||" and not pos) or (e["op"] == "&&" and pos)):
+                    facts_(e["l"], pos, depth)
+                    facts_(e["r"], pos, depth)
+                    return
                 if e.get("k") == "MethodCall" and e["name"] in ("is_some", "is_none") and not e.get("args") and (e["name"] == "is_none") == pos:
                     r = hq.peel(e["recv"])
                     root, names = hq.field_chain(r)
                     if names and names[-1] in slots_ and root.get("k") == "Local" and any(
                             hq.peel(a).get("k") == "Local" and hq.peel(a).get("lid") == root.get("lid") or cf(a) == cf(root) for a in call["args"]):
                         known_none.add(names[-1])
+            for p_ in ix.path_conditions(call):
+                if "expr" in p_:
+                    facts_(p_["expr"], p_.get("pos", True))
             missing = sorted(set(slots_) - reads - known_none)
             n += 1
             ctx.check(not missing, RL, H.short(callee) + "::ignored-slots-known-empty", H.loc(body, call),
